@@ -8,7 +8,7 @@
 (* per trace is printed by an always-true reporting invariant, so a trace  *)
 (* is still checked after a failed clause.                                 *)
 (***************************************************************************)
-EXTENDS Integers, Sequences, FiniteSets, TLC, Json, IOUtils, ObsMetric, ObsFit
+EXTENDS Integers, Sequences, FiniteSets, TLC, Json, IOUtils, ObsMetric, ObsFit, ObsClassify
 
 Batch  == JsonDeserialize(IOEnv.TRACE_FILE)
 Traces == Batch.traces
@@ -16,12 +16,21 @@ Traces == Batch.traces
 VARIABLES tid, l, st, fails, ex
 vars == <<tid, l, st, fails, ex>>
 
-InitSt == [phase |-> "unfitted", L |-> <<>>]
+InitSt == [phase |-> "unfitted", L |-> <<>>, thr |-> Zero]
 
 Res(s, f, e) == [st |-> s, fails |-> f, ex |-> e]
 
 Step(s, ev) ==
-  CASE ev.ev = "Model"  -> Res([s EXCEPT !.phase = "fitted", !.L = ev.L], {}, {})
+  CASE ev.ev = "Model"  -> Res([s EXCEPT !.phase = "fitted", !.L = ev.L,
+                                          !.thr = IF "thr" \in DOMAIN ev THEN ev.thr ELSE s.thr], {}, {})
+    [] ev.ev = "SetThreshold" ->
+         Res([s EXCEPT !.thr = ev.thr_after],
+             IF ev.thr_after = ev.arg THEN {} ELSE {"C04.set_threshold_stores_value"},
+             {"C04.set_threshold_stores_value"})
+    [] ev.ev = "Calibrate" -> Res([s EXCEPT !.thr = ev.thr_after], {}, {})
+    [] ev.ev = "PredictPairs"    -> Res(s, PairsFails(s.thr, ev), PairsEx(ev))
+    [] ev.ev = "PredictTriplets" -> Res(s, TripletsFails(ev), TripletsEx)
+    [] ev.ev = "PredictQuads"    -> Res(s, QuadsFails(ev), QuadsEx)
     [] ev.ev = "Triple" -> Res(s, TripleFails(s.L, ev), TripleEx)
     [] ev.ev = "Views"  -> Res(s, ViewsFails(s.L, ev), ViewsEx(ev))
     [] ev.ev = "Fit"    -> Res(IF ev.exc = "" THEN [s EXCEPT !.phase = "fitted", !.L = ev.L] ELSE s,
